@@ -1138,6 +1138,12 @@ func builtinNoOtherKeys(env *lisp.LEnv, args *lisp.LVal) *lisp.LVal {
 	}
 	// NB these aren't normal functions - they aren't looking for an array of args
 	return newValidator(lisp.Formals("input"), func(env *lisp.LEnv, input *lisp.LVal) *lisp.LVal {
+		// input.Map() panics ("not sorted-map: int") on anything else, and
+		// under s:any no earlier constraint has checked the type -- the same
+		// guard s:when has.
+		if input.Type != lisp.LSortMap {
+			return lisp.ErrorConditionf(WrongType, "Input is not sorted map")
+		}
 		allowedKeys := make(map[string]bool)
 		for _, c := range constraints {
 			val := applyConstraint(env, c, input)
